@@ -5,13 +5,14 @@
     ROWS(node, flags, level)         rows of the subtree of node (flags = 'has a following sibling' per ancestor level)
     KROWS(kids, j, flags, level)     rows of the subtrees of kids[:j]
 """
-from z3 import (And, BoolVal, Concat, Const, Empty, Function, If, Implies, Int, IntVal, Length, Not, Or, StringVal, Unit)
+from z3 import (And, BoolVal, Concat, Const, Empty, Function, If, Implies, Int, IntVal, Length, Not, Or, StringVal, Unit)  # noqa
 
 from pyvc.core import LoopSpec, V
 from pyvc.heap import B, I, NONE, R
 from pyvc.heapworld import Clause, Outcome
 from pyvc.seqworld import CH, QSpec, Registry, SeqR
-from pyvc.textworld import (JOINSEG, SPACES, TEXTWORLD, LastPair, Row, SeqBool, SeqFn, SeqLP, SeqRow, Str, appSeq, vstr)
+from pyvc.textworld import (ATTR, HAS, JOIN, OFNODE, OFSTR, REPR, UFn, appU, ELEMS, ISLIST, JOINSEG, SPACES, SPLITLINES, STR, TEXTWORLD, U, LastPair, Row, SeqBool, SeqFn, SeqLP, SeqRow,
+                            SeqStr, SeqU, Str, appSeq, vstr)
 
 REL = "anytree/render.py"
 P = {"C09"}
@@ -88,6 +89,61 @@ def d_KROWS(kids, j, fl, level):
                                                             ROWS(kids[j], Concat(fl, Unit(Not(j + 1 == Length(kids)))), level)))]
 
 
+# ---------------------------------------------------------------------------------------------------------------- text layout
+# "pre + first line of the value and fill + each further line (an empty value still produces one line)"
+MAPSTR = Function("MAPSTR", SeqU, SeqStr)         # str() of every element
+LINESOF = Function("LINESOF", Str, SeqStr)        # the lines of a text; one empty line if there are none
+LINES = Function("LINES", U, SeqStr)              # the lines a value is printed as: its elements if it is a list / tuple, else str(value)'s
+FILL = Function("FILL", Str, SeqStr, I, SeqStr)   # fill + line k for 1 <= k < j
+ONE_EMPTY = Unit(StringVal(""))
+
+
+def d_MAPSTR(s, j):
+    return [Length(MAPSTR(s)) == Length(s), Implies(And(0 <= j, j < Length(s)), MAPSTR(s)[j] == STR(s[j]))]
+
+
+def d_LINESOF(t):
+    return [LINESOF(t) == If(Length(SPLITLINES(t)) > 0, SPLITLINES(t), ONE_EMPTY)]
+
+
+def d_LINES(u):
+    return [LINES(u) == If(ISLIST(u), If(Length(ELEMS(u)) > 0, MAPSTR(ELEMS(u)), ONE_EMPTY), LINESOF(STR(u)))] + d_LINESOF(STR(u))
+
+
+def d_FILL(fill, ls, j):
+    return [FILL(fill, ls, 1) == Empty(SeqStr),
+            Implies(And(1 <= j, j < Length(ls)), FILL(fill, ls, j + 1) == Concat(FILL(fill, ls, j), Unit(Concat(fill, ls[j]))))]
+
+
+def fmt_row(pre, fill, ls):
+    """the printed lines of one row"""
+    return Concat(Unit(Concat(pre, ls[0])), FILL(fill, ls, Length(ls)))
+
+
+STRROWS = Function("STRROWS", SeqRow, I, SeqStr)                  # printed lines of rows[:j], each node by its repr
+BYROWS = Function("BYROWS", SeqRow, B, UFn, Str, I, SeqStr)       # printed lines of rows[:j], each node by the selected attribute
+
+
+def selected(node, isfn, fn, nm):
+    """the value by_attr prints for a node: selector(node) if the selector is callable, else getattr(node, selector, "")"""
+    return If(isfn, appU(fn, node), If(HAS(node, OFSTR(nm)), ATTR(node, OFSTR(nm)), OFSTR(StringVal(""))))
+
+
+def d_STRROWS(rows, j):
+    r = rows[j]
+    return [STRROWS(rows, 0) == Empty(SeqStr),
+            Implies(And(0 <= j, j < Length(rows)),
+                    STRROWS(rows, j + 1) == Concat(STRROWS(rows, j), fmt_row(Row.pre(r), Row.fill(r), LINESOF(REPR(OFNODE(Row.node(r)))))))]
+
+
+def d_BYROWS(rows, isfn, fn, nm, j):
+    r = rows[j]
+    return [BYROWS(rows, isfn, fn, nm, 0) == Empty(SeqStr),
+            Implies(And(0 <= j, j < Length(rows)),
+                    BYROWS(rows, isfn, fn, nm, j + 1) == Concat(BYROWS(rows, isfn, fn, nm, j),
+                                                               fmt_row(Row.pre(r), Row.fill(r), LINES(selected(Row.node(r), isfn, fn, nm)))))]
+
+
 def build():
     reg = Registry()
     reg.bases["RenderTree"] = None
@@ -127,6 +183,25 @@ def build():
         generator=True, yields="lastpairs", props=P, hints=lambda c: d_LP(c.iterable, IntVal(0))))
     reg.functions["_is_last"] = sp
 
+    # ------------------------------------------------------------------ _format_row_any (text layout of one row)
+    def fr_lines(c):
+        return LINES(c.attr)
+
+    def fr_inv(L):
+        c = L.fn
+        return [("printed-so-far", L.out == Concat(Unit(Concat(Row.pre(c.row), fr_lines(c)[0])), FILL(Row.fill(c.row), fr_lines(c), 1 + L.i)))]
+
+    def fr_hints(L):
+        c = L.fn
+        u = c.attr
+        return (d_FILL(Row.fill(c.row), fr_lines(c), 1 + L.i) + d_LINES(u) + d_MAPSTR(ELEMS(u), 1 + L.i) + d_MAPSTR(ELEMS(u), IntVal(0)))
+    sp = qs(QSpec(reg, REL, None, "_format_row_any", "function", [("row", "row"), ("attr", "any")], lambda c: [], [
+        Outcome("return", "return", lambda c, S1, r: [], res="gen", mods=(),
+                value=lambda c: fmt_row(Row.pre(c.row), Row.fill(c.row), fr_lines(c)))],
+        loops={0: LoopSpec(fr_inv, hints=fr_hints)}, generator=True, yields="str", props=P,
+        hints=lambda c: d_LINES(c.attr) + d_MAPSTR(ELEMS(c.attr), IntVal(0)) + d_FILL(Row.fill(c.row), fr_lines(c), IntVal(1))[:1]))
+    reg.functions["_format_row_any"] = sp
+
     # ------------------------------------------------------------------ RenderTree.__item
     def item_init(c):
         return {}
@@ -160,4 +235,47 @@ def build():
         Clause("maxlevel-None-is-canonical", Implies(Not(St.maxgiven), St.maxlevel == 0))], [
         Outcome("return", "return", lambda c, S1, r: [], res="gen", mods=(),
                 value=lambda c: ROWS(St.node, Empty(SeqBool), IntVal(0)))], props=P))
+    reg.methods[("RenderTree", "__iter__")] = sp
+    # ------------------------------------------------------------------ __str__ / by_attr: the text
+    all_rows = ROWS(St.node, Empty(SeqBool), IntVal(0))
+    canon = lambda c: [Clause("maxlevel-None-is-canonical", Implies(Not(St.maxgiven), St.maxlevel == 0))]
+
+    def st_outer(L):
+        return [("printed-so-far", L.out == STRROWS(all_rows, L.i))]
+
+    def st_outer_hints(L):
+        return d_STRROWS(all_rows, L.i) + d_LINESOF(REPR(OFNODE(Row.node(all_rows[L.i])))) + d_FILL(Row.fill(all_rows[L.i]),
+                                                                                                   LINESOF(REPR(OFNODE(Row.node(all_rows[L.i])))), IntVal(1))[:1]
+
+    def st_inner(L):
+        i = L.extra["wit0"]
+        r = all_rows[i]
+        ls = LINESOF(REPR(OFNODE(Row.node(r))))
+        return [("printed-so-far", L.out == Concat(STRROWS(all_rows, i), Unit(Concat(Row.pre(r), ls[0])), FILL(Row.fill(r), ls, 1 + L.i)))]
+
+    def st_inner_hints(L):
+        i = L.extra["wit0"]
+        r = all_rows[i]
+        ls = LINESOF(REPR(OFNODE(Row.node(r))))
+        return d_FILL(Row.fill(r), ls, 1 + L.i) + d_LINESOF(REPR(OFNODE(Row.node(r)))) + d_STRROWS(all_rows, i)
+    qs(QSpec(reg, REL, "RenderTree", "__str__", "method", [("self", "obj:RenderTree")], canon, [
+        Outcome("return", "return", lambda c, S1, r: [], res="str", mods=(),
+                value=lambda c: JOIN(StringVal("\n"), STRROWS(all_rows, Length(all_rows))))],
+        loops={0: LoopSpec(st_outer, hints=st_outer_hints), 1: LoopSpec(st_inner, hints=st_inner_hints)}, props=P,
+        hints=lambda c: d_STRROWS(all_rows, IntVal(0))[:1]))
+
+    def by_inv(L):
+        c = L.fn
+        isfn, fn, nm = c.attrname
+        return [("printed-so-far", L.out == BYROWS(all_rows, isfn, fn, nm, L.i))]
+
+    def by_hints(L):
+        c = L.fn
+        isfn, fn, nm = c.attrname
+        return d_BYROWS(all_rows, isfn, fn, nm, L.i)
+    qs(QSpec(reg, REL, "RenderTree", "by_attr", "method", [("self", "obj:RenderTree"), ("attrname", "selector")], canon, [
+        Outcome("return", "return", lambda c, S1, r: [], res="str", mods=(),
+                value=lambda c: JOIN(StringVal("\n"), BYROWS(all_rows, c.attrname[0], c.attrname[1], c.attrname[2], Length(all_rows))))],
+        loops={0: LoopSpec(by_inv, hints=by_hints), 1: LoopSpec(by_inv, hints=by_hints)}, props=P,
+        hints=lambda c: d_BYROWS(all_rows, c.attrname[0], c.attrname[1], c.attrname[2], IntVal(0))[:1]))
     return reg, specs
